@@ -219,6 +219,13 @@ var knownPure = map[string]bool{
 	"time.Unix":                                true,
 	"(time.Time).UnixNano":                     true,
 	"(*encoding/base64.Encoding).EncodedLen":   true,
+	"io.ReadAll":                               true,
+	"io.LimitReader":                           true,
+	"context.WithCancel":                       true,
+	"context.WithTimeout":                      true,
+	"context.WithDeadline":                     true,
+	"context.Background":                       true,
+	"context.TODO":                             true,
 	"(*encoding/base64.Encoding).DecodedLen":   true,
 }
 
